@@ -17,10 +17,17 @@ pub struct Report {
     pub fails: Vec<(String, String, String)>, // prop, what, replay text
     pub samples: Vec<String>,
     pub extra: BTreeMap<String, u64>,
+    pub progress: String,
 }
 impl Report {
     fn new(prop: &str) -> Report {
-        Report { prop: prop.into(), evaluations: 0, tuples: BTreeSet::new(), fails: vec![], samples: vec![], extra: BTreeMap::new() }
+        Report { prop: prop.into(), evaluations: 0, tuples: BTreeSet::new(), fails: vec![], samples: vec![], extra: BTreeMap::new(), progress: String::new() }
+    }
+    /// what is about to be executed, for the case that the process does not survive it
+    fn about_to(&self, text: &str) {
+        if !self.progress.is_empty() {
+            let _ = std::fs::write(&self.progress, text);
+        }
     }
     fn fail(&mut self, prop: &str, what: String, replay: String) {
         if self.fails.len() < 20 {
@@ -57,7 +64,9 @@ pub fn cmd_extra(args: &[String]) {
     let report = arg(args, "--report").unwrap_or("/dev/null").to_string();
     let replays = arg(args, "--replays").unwrap_or("/tmp").to_string();
     let prop = arg(args, "--prop").unwrap_or("").to_string();
+    let progress = arg(args, "--progress").unwrap_or("").to_string();
     let mut rep = Report::new(&prop);
+    rep.progress = progress.clone();
     match which {
         "zst" => zst(&mut rep, scale),
         "set" => sets(&mut rep, seed, scale),
@@ -90,6 +99,9 @@ pub fn cmd_extra(args: &[String]) {
         extra.join(",")
     );
     std::fs::write(&report, out).expect("write report");
+    if !progress.is_empty() {
+        let _ = std::fs::remove_file(&progress);
+    }
     println!("gharness extra {which}: evaluations={} distinct={} fails={}", rep.evaluations, rep.tuples.len(), rep.fails.len());
 }
 
@@ -839,6 +851,7 @@ fn fault(rep: &mut Report, seed: u64, scale: u64) {
                     let k = g.below(70);
                     let phase = m.verif_state().old.is_some();
                     log.push(format!("then {} (key {k}) with a panic injected at callback #{idx} of kinds {kinds:#x}", opnames[op]));
+                    rep.about_to(&format!("{}\n-- second map (source): {}", log.join("\n"), log_src.join("; ")));
                     arm_fuse(idx, kinds);
                     let r = catch_unwind(AssertUnwindSafe(|| match op {
                         0 => {
@@ -978,7 +991,11 @@ fn fault(rep: &mut Report, seed: u64, scale: u64) {
                     if !problems.is_empty() {
                         log.push("-- second map (source):".into());
                         log.extend(log_src);
-                        rep.fail("C07", problems.join("; "), log.join("\n"));
+                        let text = problems.join("; ");
+                        if text.contains("cached iterator") || text.contains("used after drop") || text.contains("dropped twice") || text.contains("canary") || text.contains("not the injected one") {
+                            rep.fail("C05", text.clone(), log.join("\n"));
+                        }
+                        rep.fail("C07", text, log.join("\n"));
                     }
                     if rep.samples.len() < 2 && r.is_err() {
                         rep.samples.push(log.join(" ; "));
